@@ -165,6 +165,17 @@ func shuffle(v reflect.Value, r *hx.Rng, depth int) {
 func (in *Inst) PickMatters(c Cmd) bool {
 	switch c.Kind {
 	case "CreateShardGroup", "CreateMeasurement", "AlterShardKey":
+	case "ExpandGroups", "CreateDataNode":
+		// ExpandGroups (also run by CreateDataNode when shard expansion is on) skips the policies
+		// whose `shardingType()` - the first measurement of the map again - is range
+		for _, db := range in.Data().Databases {
+			for _, rp := range db.RetentionPolicies {
+				if mixedTypes(rp) {
+					return true
+				}
+			}
+		}
+		return false
 	default:
 		return false
 	}
@@ -180,6 +191,10 @@ func (in *Inst) PickMatters(c Cmd) bool {
 	if rp == nil {
 		return false
 	}
+	return mixedTypes(rp)
+}
+
+func mixedTypes(rp *meta.RetentionPolicyInfo) bool {
 	types := map[string]bool{}
 	for _, m := range rp.Measurements {
 		if len(m.ShardKeys) == 0 {
